@@ -48,14 +48,25 @@ func (noAttach) Attach() (p9.File, error) { return nil, linux.ENOSYS }
 
 // hang reports a quiescence outcome: Stuck is a violation (with the dump as
 // witness), Timeout is inconclusive.
-func hang(c *ev.Ctx, out quiesce.Outcome, dump []quiesce.G, sig string, what any) {
+func hang(c *ev.Ctx, out quiesce.Outcome, dump []quiesce.G, sig string, what any) bool {
+	defer func() {
+		if out != quiesce.CondMet {
+			hungFlag = true
+		}
+	}()
 	switch out {
 	case quiesce.Stuck:
 		c.Violation(sig, map[string]any{"what": what, "all_goroutines_parked": true, "p9_stacks": quiesce.P9Stacks(dump)})
 	case quiesce.Timeout:
 		c.Inconclusive(fmt.Sprintf("%s: watchdog fired with runnable goroutines: %v", sig, what))
 	}
+	return out != quiesce.CondMet
 }
+
+// hungFlag is set whenever hang() saw a Stuck/Timeout outcome; scenarios that
+// would touch the (possibly deadlocked) server's own locks afterwards reset it
+// at their start and test it before doing so. Shards run one scenario at a time.
+var hungFlag bool
 
 func u(x uint64) uint64 { return x }
 
